@@ -140,7 +140,7 @@ func check(c corsref.Case, st *rig.Stats) error {
 }
 
 var stats = rig.NewStats("C12",
-	"same generator as C11 (configuration x routes with removals before or between requests x optional sibling router sharing the option arrays x requests with random header case and spacing, some repeated verbatim). For requests the configuration allows (Origin exactly listed, or any Origin under '*'; live route; served method; for preflights a served requested method and only allowed requested headers compared case-insensitively) the response must carry ACAO, Allow-Credentials and Expose-Headers exactly as configured; allowed preflights additionally Allow-Methods == the route's Allow set, the configured Allow-Headers and Max-Age, and Vary naming Access-Control-Request-Method (and Access-Control-Request-Headers when an allow-list is sent); Vary names Origin whenever the origin came from a list; non-preflights never carry the three preflight-only headers. Non-trivial: allowed request with an Origin that is a preflight or answered from a list; distinct by hash of the case",
+	"same generator as C11 (configuration x routes with removals before or between requests x optional sibling router sharing the option arrays x requests with random header case and spacing, some repeated verbatim). For requests the configuration allows (Origin exactly listed, or any Origin under '*'; live route; served method; for preflights a served requested method and only allowed requested headers compared case-insensitively) the response must carry ACAO, Allow-Credentials and Expose-Headers exactly as configured; allowed preflights additionally Allow-Methods == the route's Allow set, the configured Allow-Headers and Max-Age, and Vary naming Access-Control-Request-Method (and Access-Control-Request-Headers when an allow-list is sent); Vary names Origin whenever the origin came from a list; non-preflights never carry the three preflight-only headers. Non-trivial: allowed request with an Origin that is a preflight or answered from a list; distinct by hash of the case. Later additions to the generated domain: Same generator as C11: big origin lists and long origins, WithAllowedCORS, routes that gain methods between requests, all recovery options. Same generator as C11 (non-token header names; dotted-i near misses).",
 	"requests without an Origin header under a '*' configuration carry no lower-bound claim",
 	"a configured '*' for allowed headers may be sent together with Authorization")
 
